@@ -790,7 +790,9 @@ def run(ctx):
             ctx.corr_break("C17/malformed-line", {"line": line}, {"model": got, "expected": want})
     run_keys(ctx, drv, 6 if not thorough else 40)
     budget = 75 if not thorough else 520
-    plan = (["history"] * 5 + ["twostep"] + ["interp"] * 3 + ["uniform"] * 2 + ["urhs"] * 2 + ["samestep"])
+    # the expensive / rare kinds come early so that a slow machine still reaches them within the budget
+    plan = ["history", "samestep", "urhs", "twostep", "history", "interp", "uniform", "history", "urhs", "interp", "history",
+            "uniform", "interp", "history"]
     gens = {"history": gen_history, "twostep": gen_twostep, "uniform": gen_uniform, "interp": gen_interp, "urhs": gen_urhs, "samestep": gen_samestep}
     n = 130 if not thorough else 1700
     k = 0
